@@ -1026,6 +1026,36 @@ theorem unknownContig_written (cfg : Cfg) (inp : List Writer.Sample) (dec : Deci
   rw [← contigListOf_names cfg inp dec smp dcs hsh, ← hxc]
   exact List.mem_map.mpr ⟨x, hx, rfl⟩
 
+/-! ## the small concrete input of `Props.C01.read_write`'s example (shared by the non-vacuity
+examples of `Props/C07.lean` and `Props/C08.lean`) -/
+
+namespace Ex
+/-- `k = 3`, `min_match_len = 10`. Sample `A` (= `[65]`) has a contig `c` of 10 symbols cut into two
+3-overlapping pieces and a contig `d` of 3 symbols (with an `N`); sample `B` has a contig `c` that
+differs from `A`'s in one base. LZ group 16 holds the first piece of `A/c` (its reference) and the
+first piece of `B/c` (a real delta); raw group 0 holds the other three pieces, one of them stored
+reverse-complemented. -/
+def cfg : Ragc.Writer.Cfg := ⟨3, 10, 10, 17⟩
+def inp : List Ragc.Writer.Sample :=
+  [⟨[65], [⟨[99], [0, 1, 2, 3, 0, 1, 2, 3, 0, 1]⟩, ⟨[100], [2, 4, 1]⟩]⟩,
+   ⟨[66], [⟨[99], [0, 1, 2, 2, 0, 1, 2, 3, 0, 1]⟩]⟩]
+def dec : Ragc.Writer.Decisions :=
+  ⟨[[[⟨6, 16, 0, false⟩, ⟨7, 0, 0, true⟩], [⟨3, 0, 1, false⟩]], [[⟨6, 16, 1, false⟩, ⟨7, 0, 2, false⟩]]],
+   [⟨16, false, [(0, 0, 0), (1, 0, 0)]⟩, ⟨0, false, [(0, 0, 1), (0, 1, 0), (1, 0, 1)]⟩]⟩
+/-- toy ZSTD with the two C12 facts -/
+def zc : Nat → List Nat → List Nat := fun l x => l :: x
+def zd : List Nat → Option (List Nat) := fun c => some c.tail
+
+theorem hyps : Ragc.Writer.DecisionsOK cfg inp dec ∧ Ragc.Writer.codesOK inp ∧ NamesDistinct inp ∧
+    (∀ l x, zd (zc l x) = some x) ∧ (∀ l x, zc l x = [] → x = []) :=
+  ⟨by decide, by decide, by decide, fun _ _ => rfl, fun _ _ h => by simp [zc] at h⟩
+
+/-- a history mixing misses, hits, ranges and full-table queries -/
+def hist : List Op :=
+  [.getSample [90], .getContig [66] [99], .listContigs [65], .contigRange [65] [99] 2 9, .allSegments,
+   .referenceSegment 16, .getContig [65] [120], .getSample [65]]
+end Ex
+
 end Written
 
 end Ragc.ReaderLink
